@@ -390,9 +390,12 @@ Definition tf_e1 : env := {| en_max := Some 1000; en_oracle := [] |}.
 Definition tf_e2 : env := {| en_max := None; en_oracle := [] |}.
 Definition tf_prog : list sop := [SDelay 18 0; SDelay 100 0; STarget [0] 0].
 
+Definition tf_s1 : sched := [tf_chan (tf_cfg (Some 400) (Some 2%float))].
+Definition tf_s2 : sched := [tf_chan (tf_cfg None None)].
+
 Example timing_frame_example :
-  let s1 := [tf_chan (tf_cfg (Some 400) (Some 2%float))] in
-  let s2 := [tf_chan (tf_cfg None None)] in
+  let s1 := tf_s1 in
+  let s2 := tf_s2 in
   snd (srun tf_e1 tf_prog s1) = Ok tt /\ snd (srun tf_e2 tf_prog s2) = Ok tt /\
   map ch_slots (fst (srun tf_e1 tf_prog s1)) = map ch_slots (fst (srun tf_e2 tf_prog s2)) /\
   map (fun sl => (s_ti sl, s_tf sl)) (concat (map ch_slots (fst (srun tf_e1 tf_prog s1)))) = [(20, 120); (0, 20); (-1, 0)].
